@@ -248,7 +248,12 @@ class Workspace:
                 if self.h["outkind"][t] == "none":
                     d["output_checks"] = [{"command": f'test -f "$GROG_WORKSPACE_ROOT/../ext/{t}"'}]
                 else:
-                    d["output_checks"] = [{"command": f'cat "$GROG_WORKSPACE_ROOT/../ext/{t}"', "expected_output": "ok"}]
+                    # the same condition checked in two styles: decided by what the command prints, or decided by its exit status
+                    # although it prints the expected text
+                    if self.opts.get("check_style", 0) == 0:
+                        d["output_checks"] = [{"command": f'cat "$GROG_WORKSPACE_ROOT/../ext/{t}"', "expected_output": "ok"}]
+                    else:
+                        d["output_checks"] = [{"command": f'echo ok; test -f "$GROG_WORKSPACE_ROOT/../ext/{t}"', "expected_output": "ok"}]
             targets.append(d)
         pkg = {"targets": targets}
         if self.aliases:
@@ -656,9 +661,14 @@ def run_histories(chk, tmp, grog, histories, prop, literal_clean, label, opts_of
     others = {}
     t0 = time.time()
 
+    # templates with an output check next to an output are replayed once per check style (see Workspace.render)
+    styles = [0, 1] if histories and any(histories[0]["header"]["outkind"].get(t) != "none" for t in histories[0]["header"]["checkt"]) else [0]
+    histories = [h for h in histories for _ in styles]
+
     def one(ih):
         i, h = ih
-        opts = opts_of(i) if opts_of else {"workers": 1 + i % 4, "hash": ["", "sha256"][i % 2]}
+        opts = dict(opts_of(i) if opts_of else {"workers": 1 + i % 4, "hash": ["", "sha256"][i % 2]})
+        opts["check_style"] = styles[i % len(styles)]
         return replay(grog, h, opts, tmp, literal_clean=literal_clean)
 
     with ThreadPoolExecutor(core.NCPU) as ex:
